@@ -1,7 +1,7 @@
 """Registry entry, manifest texts for C07."""
 
 ENTRY = {'parts': [{'scenario': 'scenarios.s_pool', 'chunk': 6}],
-         'quick': {'runs': 2500, 'budget': 55}, 'thorough': {'runs': 150000, 'budget': 1200}}
+         'quick': {'runs': 2500, 'budget': 40}, 'thorough': {'runs': 150000, 'budget': 1200}}
 
 TEXT = {'level': 'Seeded search over job mixes x close() instants x recycling settings, with and without helper '
           'threads: close() at a generated step relative to job progress, then join(). Oracle: every job '
